@@ -256,6 +256,8 @@ class TermAlg:
         return NotImplemented
 
     def call(self, fname, *args):
+        if fname == "zero":
+            return 0       # pytato.zero(x): documented to be zero whatever x is (keeps a dead reference alive)
         return ("call", fname, *args)
 
     def cast(self, dtype, x):
